@@ -189,6 +189,11 @@ pub fn prepare_loaded(sb: &Path, r: &mut Rng, allow_bad_files: bool) -> Prepared
         std::fs::write(src.join("images/notpng.png"), b"GIF89a").unwrap();
         notes.push("source has images/notpng.png without the PNG signature".into());
     }
+    // glif files under names another editor may have left (not the default for the glyph name,
+    // with upper-case letters), so that later insertions can aim at a name that is taken
+    if r.chance(1, 2) {
+        foreign_file_names(&src, r, &mut notes);
+    }
     let font = Font::load(&src).unwrap();
     let mut shadow = Shadow::opened(&font, &comps("src.ufo"));
     let mut preserve = BTreeSet::new();
@@ -215,6 +220,114 @@ pub fn prepare_loaded(sb: &Path, r: &mut Rng, allow_bad_files: bool) -> Prepared
     }
     p.shadow = shadow;
     p
+}
+
+/// rewrite some contents.plist entries of the saved source to non-default file names
+pub fn foreign_file_names(src: &Path, r: &mut Rng, notes: &mut Vec<String>) {
+    const NAMES: [&str; 8] = ["A_.glif", "B_.glif", "X_Y_.glif", "A__.glif", "Z_z.glif", "N_ew.glif", "Q_.alt.glif", "E_ACUTE.glif"];
+    let rd = match std::fs::read_dir(src) {
+        Ok(x) => x,
+        Err(_) => return,
+    };
+    for e in rd.flatten() {
+        let dir = e.path();
+        let cp = dir.join("contents.plist");
+        if !dir.is_dir() || !cp.exists() {
+            continue;
+        }
+        let mut dict = match plist::Value::from_file(&cp).ok().and_then(|v| v.into_dictionary()) {
+            Some(d) => d,
+            None => continue,
+        };
+        let mut taken: BTreeSet<String> = dict.values().filter_map(|v| v.as_string()).map(|s| s.to_lowercase()).collect();
+        let keys: Vec<String> = dict.keys().cloned().collect();
+        for k in keys {
+            if !r.chance(1, 2) {
+                continue;
+            }
+            let new = *r.pick(&NAMES);
+            if taken.contains(&new.to_lowercase()) {
+                continue;
+            }
+            let old = dict.get(&k).and_then(|v| v.as_string()).unwrap().to_string();
+            if std::fs::rename(dir.join(&old), dir.join(new)).is_ok() {
+                taken.insert(new.to_lowercase());
+                dict.insert(k.clone(), plist::Value::String(new.to_string()));
+                notes.push(format!("{}: glyph {:?} kept in {}", dir.file_name().unwrap().to_string_lossy(), k, new));
+            }
+        }
+        plist::Value::Dictionary(dict).to_file_xml(&cp).unwrap();
+    }
+}
+
+/// glyph names whose default file name may equal the existing file name `file`
+pub fn colliding_names(file: &str) -> Vec<String> {
+    let stem = file.strip_suffix(".glif").unwrap_or(file);
+    // undo "capital letter gets an underscore"
+    let mut base = String::new();
+    let cs: Vec<char> = stem.chars().collect();
+    let mut i = 0;
+    while i < cs.len() {
+        base.push(cs[i]);
+        if cs[i].is_uppercase() && i + 1 < cs.len() && cs[i + 1] == '_' {
+            i += 1;
+        }
+        i += 1;
+    }
+    let mut v = vec![base.clone(), stem.to_string(), base.to_lowercase(), base.to_uppercase()];
+    for ill in ['?', '*', ':', '/', '|'] {
+        if base.contains('_') {
+            v.push(base.replace('_', &ill.to_string()));
+        }
+        if stem.contains('_') {
+            v.push(stem.replacen('_', &ill.to_string(), 1));
+        }
+    }
+    v.sort();
+    v.dedup();
+    v
+}
+
+/// edits that aim at file names already in use: insert / rename glyphs to names whose default file
+/// name equals (or differs only by case from) the file of another glyph of the same layer
+pub fn collide_edits(p: &mut Prepared, r: &mut Rng) {
+    let layer_names: Vec<String> = p.font.layers.names().map(|n| n.to_string()).collect();
+    for ln in layer_names {
+        let files: Vec<(String, String)> = {
+            let l = p.font.layers.get(&ln).unwrap();
+            l.iter().filter_map(|g| l.get_path(g.name()).map(|q| (g.name().to_string(), q.to_string_lossy().to_string()))).collect()
+        };
+        let mut budget = 3;
+        for (owner, file) in &files {
+            for cand in colliding_names(file) {
+                if budget == 0 || !r.chance(2, 3) {
+                    continue;
+                }
+                if norad::Name::new(&cand).is_err() || cand == *owner {
+                    continue;
+                }
+                let l = p.font.layers.get_mut(&ln).unwrap();
+                if l.contains_glyph(&cand) {
+                    continue;
+                }
+                budget -= 1;
+                if r.chance(1, 3) && files.len() > 1 {
+                    // rename some other glyph to the candidate
+                    let other = files.iter().map(|(n, _)| n.clone()).find(|n| n != owner && l.contains_glyph(n));
+                    if let Some(o) = other {
+                        if l.rename_glyph(&o, &cand, false).is_ok() {
+                            p.notes.push(format!("layer {:?}: renamed glyph {:?} to {:?} (file of {:?} is {})", ln, o, cand, owner, file));
+                        }
+                        continue;
+                    }
+                }
+                let mut g = Glyph::new(&cand);
+                g.width = 7.0;
+                l.insert_glyph(g);
+                p.notes.push(format!("layer {:?}: inserted glyph {:?} (file of {:?} is {})", ln, cand, owner, file));
+            }
+        }
+    }
 }
 
 /// random edits of a loaded font ("modify the font")
